@@ -1,7 +1,36 @@
 """C06 - the live view shows exactly the messages matching the current filter."""
-import gen, sessionprop
+import mrender, gen, sessionprop
 from props import sessbase
 from props.common import relevant
+
+
+def blanks_session(seed):
+    """texts that differ only in their white space (runs of blanks, a tab) arrive as string arguments; a filter naming one of
+    them exactly is typed as a command (or given with -f) in the middle"""
+    import random
+    r = random.Random(seed)
+    texts = ['Report  -  draft', 'Report - draft', 'Report   -   draft', 'tabs\t\tx', 'tabs\tx', 'tabs x', ' lead', 'lead']
+    ev, t = [], 1000
+    def msg(name, args, tid=3, ty='xdg_toplevel'):
+        nonlocal t
+        t += 700
+        ev.append({'in': {'e': 'msg', 'tag': '', 't': t, 'm': {'ttype': ty, 'tid': tid, 'name': name, 'sent': True, 'args': args}}})
+    msg('get_registry', [{'k': 'new', 'type': 'wl_registry', 'id': 2}], 1, 'wl_display')
+    msg('bind', [{'k': 'int', 'v': 1}, {'k': 'str', 's': 'xdg_toplevel'}, {'k': 'int', 'v': 1}, {'k': 'new', 'type': '', 'id': 3}], 2, 'wl_registry')
+    for x in r.sample(texts, 4):
+        msg('set_title', [{'k': 'str', 's': x}])
+    pick = r.choice(texts[:6])
+    ast = mrender.pat_full(args=mrender.args([mrender.arg({'k': 'str', 's': pick})]))
+    init = dict(sessbase.NOFILTER)
+    if r.random() < 0.3:
+        init.update(hasf=True, f=ast)
+    else:
+        ev.append({'in': {'e': 'cmd', 'c': r.choice(['filter', 'filter', 'break']), 'hasarg': True, 'ok': True, 'ast': ast, 'spell': ['', '', []]}})
+    for x in r.sample(texts, len(texts)):
+        msg('set_title', [{'k': 'str', 's': x}])
+    ev.append({'in': {'e': 'cmd', 'c': 'list', 'hasm': True, 'ok': True, 'cap': -1, 'caperr': False, 'ast': ast, 'spell': ['', '', []]}})
+    ev.append({'in': {'e': 'eof'}})
+    return {'init': init, 'events': ev}
 
 
 def sessions(ctx):
@@ -12,6 +41,8 @@ def sessions(ctx):
             g = gen.SessionGen(ctx.seed * 49979687 + k, nconn=(1, 3), nmsg=(15, 45), junk=0.05, cmds=0.25, core=True, unresolved=0.08,
                                matcher_depth=k % 3, with_init_filter=0.4)
             yield g.session(), {'dialect': ctx.rnd.choice(['old', 'new'])}, 'random-live'
+        for k in range(ctx.pick(24, 200)):
+            yield blanks_session(ctx.seed * 2750171 + k), {'dialect': 'new' if k % 2 else 'old'}, 'texts-differing-in-white-space'
         from props import c04
         for k in range(ctx.pick(60, 600)):
             yield c04.appid_session(ctx.seed * 2750161 + k, live=True), {'dialect': 'new'}, 'selection-by-name-or-application-id'
